@@ -323,7 +323,15 @@ TRUSTED_BASE = [
     "list, prod, sumbool, sumor); no Extract Constant; Z/positive/N/nat stay Coq datatypes; ocamlfind ocamlopt 4.13.1",
     "hand-written glue: OCaml driver (token parser/printers), Rust harness (dump code, hooks under "
     "--cfg rssched_verif), Python generator/comparator",
-    "model is hand-written Gallina; tie to /repo is the correspondence check run on every check",
+    "model is hand-written Gallina (Network/load, Tour, Transition, Flow network, Schedule with all modifications, Swaps "
+    "with the neighbourhood enumeration, the pipeline composition, schedule_to_json); tie to /repo is the correspondence "
+    "check run on every check: operation histories, neighbourhood walks, whole solve runs (every stage snapshot, every "
+    "accepted local-search step, the returned JSON) replayed on the model and compared line by line",
+    "oracles, constrained per run but not modelled: rs_graph network_simplex (flow certified by checked potentials), "
+    "rayon min_by (pick contract checked on recorded steps), transition optimiser (TInv of its result checked), "
+    "HashMap iteration orders (read from the same process' observations), f32 slot distribution (read from the hook)",
+    "not modelled: serde parsing and ISO time formatting (times enter as seconds through the Python encoder), machine "
+    "integer widths (Z; debug builds run with overflow checks), threads, sockets, OS",
 ]
 
 
